@@ -346,6 +346,8 @@ type ErrObs struct {
 type Event struct {
 	Kind string `json:"kind"` // start | fulfil
 	Path string `json:"path"`
+	// Pending (real side, start events only): promises outstanding when the resolver was called.
+	Pending []string `json:"pending,omitempty"`
 }
 
 // Observed is the canonical observable of one run (either side).
@@ -358,8 +360,8 @@ type Observed struct {
 	Panic    string   `json:"panic,omitempty"`
 	Stuck    bool     `json:"stuck,omitempty"` // the idle handler was called with nothing left to fulfil
 	Widths   []int    `json:"-"`               // outstanding promises at each idle round (real side only)
-	// Abandoned lists the promises whose result was delivered but never received by the executor
-	// (real side only): the selection set they belong to had already failed.
+	// Abandoned lists the promises whose result the executor never received (real side only):
+	// delivered but left in the channel, or still outstanding when execution returned.
 	Abandoned []string `json:"abandoned,omitempty"`
 	tree      any
 }
